@@ -126,11 +126,19 @@ Definition oi_delete (ix : oindex) (u : N) : option oindex :=
       end
   end.
 
-(* objIndex.control: every field index ordered and as long as the id table *)
+(* objIndex.control (object_index.go:267-291): two object ids must not refer to the same object
+   (len(uuids) = len(ObjectIds)); every field index is ordered, as long as the id table, holds at
+   most one entry per object id (len(fi.objectIds) = fi.Len()) and only known object ids *)
+Fixpoint nodupN (l : list N) : bool :=
+  match l with [] => true | x :: r => negb (memN x r) && nodupN r end.
+
 Definition oi_control (ix : oindex) : bool :=
+  nodupN (map snd (oi_ids ix)) &&
   forallb (fun o => match o with
                     | None => true
                     | Some l => fi_control l && Nat.eqb (length l) (length (oi_ids ix))
+                                && nodupN (map snd l)
+                                && forallb (fun e => memN (snd e) (map fst (oi_ids ix))) l
                     end) (oi_fx ix).
 
 (* what objIndex.UnmarshalJSON rebuilds: next = (largest id, or 0) + 1 *)
